@@ -14,15 +14,15 @@ COMMON_ASSUMPTIONS = [
 PROPS = {
     "C06": dict(
         suites=[("pipe", 6000, 120000)],
-        trusted_base=["the hash of a single value (CValueEnclosure.Hash = xxhash of dtype byte + text) is a parameter of the model (any function); the Oracle instantiates it with one bit per distinct value of the case, so XOR combinations collide exactly when the values occurring an odd number of times agree",
+        trusted_base=["the hash of a single value (CValueEnclosure.Hash = xxhash of dtype byte + text) and the digest of the sequence of field hashes (xxhash.Sum64 of the concatenated 8-byte hashes) are parameters of the model; the dedup theorems about the documented meaning assume both collision-free (HashInjective, DigestInjective) or, table-locally and decidably, keyFaithful; the Oracle instantiates them with collision-free stand-ins (position among the distinct values of the case, positional encoding)",
                       "the correspondence harness builds IQRs without RRCs (knownValues), as the package's own tests do; the synthetic upstream is a processor.Streamer replaying the table under the given partition"],
-        decided_by_proof="for EVERY table and EVERY partition into batches (empty batches included) the DataProcessor.Fetch loop over the real state handling of: head <n> (plain limit, early EOF), tail <n> (bottleneck, reversed), the scroll-from processor, rename <old> as <new> (one pair, phrase mode), fields +/- <literal names>, fillnull value=<v> <field list> (streaming), fillnull value=<v> without field list (two passes, also with different partitions in the two passes), dedup <limit> <f1…fk> with consecutive / keepempty / keepevents in any combination (the seen-map across batches = dedup of the whole stream under the key the code forms) yields the documented meaning on the whole ordered input; sequential composition of chunk-invariant stages and every chain by induction; the two-pass fillnull on top of a rewound and re-read head / tail / dedup / row-wise command (two_pass_over + rereadable_*); counterexample theorem for two passes: `tail | rename | fillnull` applies the rename twice to tail's retained result (in-place mutation) and loses the column; dedup key: XOR of per-field hashes is NOT injective for ANY hash ((1,2) vs (2,1); (1,1) vs (2,2)) — counterexample theorems, partial theorems for single-field dedup and under the explicit guards colsOK (every non-empty batch carries the dedup columns) and keyFaithful; counterexample theorem: a column missing in one batch makes dedup depend on the partition",
-        partial="NOT modelled / not decided by proof: where, eval, rex, regex, sort, top/rare, bin, streamstats, makemv/mvexpand, stats, timechart, transaction, tojson, inputlookup, gentimes; head with a boolean expression (keeplast/null); dedup sortby; rename with wildcards / several pairs; fields with wildcards; merging of SEVERAL upstream streams (getStreamInput with >1 stream, MergeIQRs, parallel chains) and the searcher; IQRs with RRCs (segment-backed columns, renamed/deleted column shadowing); chains longer than two stages under a two-pass command are tied by the correspondence run only (the Oracle's Chain.read incl. the in-place aliasing of tail's retained result); the general chain theorem covers single-pass feeding",
-        assumptions=["IQR.Append / Discard / DiscardAfter / DiscardRows / ReverseRecords / RenameColumn / AddColumnsToDelete act on a column-major table as modelled (row lists); tied by the correspondence run",
+        decided_by_proof="for EVERY table, EVERY partition into batches (empty batches included) and every column layout of the batches, the DataProcessor.Fetch loop over the real state handling of: head <n> (plain limit, early EOF), tail <n> (bottleneck, reversed, result handed out as a copy), the scroll-from processor, rename <old> as <new> (one pair, phrase mode), fields +/- <literal names>, fillnull value=<v> <field list> (streaming), fillnull value=<v> without field list (two passes, also with different partitions in the two passes), dedup <limit> <f1…fk> with consecutive / keepempty / keepevents in any combination (seen-map across batches; key = digest of the SEQUENCE of field hashes; absent column = nulls) yields the documented meaning on the whole ordered input (chunk_invariant; dedup_key_injective at full strength modulo collision-freeness of the two hashes); sequential composition of chunk-invariant stages and every chain by induction; the two-pass fillnull on top of a rewound and re-read head / tail / dedup / row-wise command (two_pass_over + rereadable_*); kept for the record: counterexample theorems for the XOR key of the code before the repair (…_old)",
+        partial="NOT modelled / not decided by proof: where, eval, rex, regex, sort, top/rare, bin, streamstats, makemv/mvexpand, stats, timechart, transaction, tojson, inputlookup, gentimes; head with a boolean expression (keeplast/null); dedup sortby; rename with wildcards / several pairs; fields with wildcards; merging of SEVERAL upstream streams (getStreamInput with >1 stream, MergeIQRs, parallel chains) and the searcher; IQRs with RRCs (segment-backed columns, renamed/deleted column shadowing); in-place mutation / aliasing of IQR objects between stages is not modelled (after the repair no modelled processor keeps a reference to an object it hands downstream); chains longer than two stages under a two-pass command are tied by the correspondence run only (the Oracle's Chain.read); the general chain theorem covers single-pass feeding",
+        assumptions=["IQR.Append / Discard / DiscardAfter / DiscardRows / ReverseRecords / RenameColumn / AddColumnsToDelete / ReadColumnsWithBackfill / Copy act on a column-major table as modelled (row lists); tied by the correspondence run",
                      "the consumer fetches until EOF and appends (GetFullResult); a CachedStream answers (nil, EOF) after its first EOF"],
     ),
     "C08": dict(
-        suites=[("gorilla", 3000, 60000), ("gorilladec", 1500, 30000), ("e2e_metrics", 1000, 15000)],
+        suites=[("gorilla", 3000, 60000), ("gorilladec", 1500, 30000), ("e2e_metrics", 600, 15000)],
         trusted_base=["xxhash (TSID) treated as an arbitrary function; statements are about the pre-image string",
                       "e2e_metrics: lean/SigModel/Spec/Metrics.lean (the specification a selector/aggregation answer is compared with), lib/e2ecmp.py compare_metrics (comparison + declared latitude), harness overlay hooks VerifRotateBlocks/VerifFlushTagsTrees (bodies of the repo's timer loops)"],
         decided_by_proof="Gorilla codec round trip for every header/series (bit IO, dod buckets, XOR windows, finish marker, clone prefix)",
@@ -30,11 +30,11 @@ PROPS = {
         assumptions=["ingest hands the compressor header = first timestamp and non-zero uint32 timestamps"],
     ),
     "C09": dict(
-        suites=[("promql", 4000, 60000), ("e2e_metrics", 1000, 15000)],
+        suites=[("promql", 4000, 60000), ("e2e_metrics", 600, 15000)],
         trusted_base=["e2e_metrics: lean/SigModel/Spec/Metrics.lean (the PromQL specification of selectors and sum/min/max/avg/count by/without that the engine's answer is compared with; regex matchers only in the fragment literal / .* / a|b), lib/e2ecmp.py compare_metrics (comparison + declared latitude)",
                       "float64 arithmetic is not modelled: the correspondence run uses integer samples (|v| < 2^40, sums < 2^53) so sum/min/max/count are exact in float64; the avg quotient is compared after the Oracle's correctly rounded float64 division (f64div), which no theorem is about",
                       "overlay hook VerifGetAggSeriesId (pkg/segment/results/mresults) only exposes getAggSeriesId; series ids are produced by the real tsidtracker.BulkAdd/AddTSID in tag-filter order chosen by the generator (any order), goroutine interleaving inside DownsampleResults/AggregateResults is exercised with parallelism 1..4 and treated as order-insensitive"],
-        decided_by_proof="results layer of metric queries, for every metric name, label set, field list, by/without, step and sample list: the group key cut out of the series-id string equals the PromQL group key rendered (and same key <=> same PromQL group) under the guard LabelSafe (no , : { in names/values/fields, no grouping field a proper suffix of a label name; counterexample theorems without it, exact characterisation 'value of the first label whose name ENDS WITH the field'); per group and bucket the reported value is sum of sums / min of mins / max of maxes / number of member series / pooled mean over the PromQL members (agg_correct, no further keys: agg_complete) under LabelSafe and CountOK (counterexample for count without ()); min <= avg <= max for all inputs; avg = sum/count when every series has one sample per bucket (counterexample otherwise: the downsampler folds a bucket with the query's own function); grouping by all labels = one group per label set; (ts/step)*step is the floor to the step grid",
+        decided_by_proof="results layer of metric queries (code as of the C09 fix of ExtractGroupByFieldsFromSeriesId), for every metric name, label set, field list, by/without, step and sample list: the group key cut out of the series-id string equals the PromQL group key rendered (and same key <=> same PromQL group) under the guard LabelSafe = no , { in metric name and label values, no , : { in label names (label names may be suffixes of each other, ':' may occur in metric names and values; counterexample theorems for a value containing ',b:'); the value found for a field is List.lookup on the label set; per group and bucket the reported value is sum of sums / min of mins / max of maxes / number of member series / pooled mean over the PromQL members (agg_correct, no further keys: agg_complete) under LabelSafe and CountOK (count with an empty field list: only by ()/no clause over distinct label sets; counterexample theorems for count without () — known finding — and for duplicate ids); min <= avg <= max for all inputs; avg = sum/count when every series has one sample per bucket (counterexample otherwise: the downsampler folds a bucket with the query's own function); grouping by all labels = one group per label set; (ts/step)*step is the floor to the step grid",
         partial="selector/matcher evaluation on the tags tree (=, !=, =~, !~ and the key=* filters of SelectAllSeries), the PromQL parser, the order in which tag filters are concatenated into the id, nested aggregations through ApplyAggregationToResults (agg2 operations: correspondence with the model's results2 only, no theorem; first stage restricted to sum/min/max/count so that the intermediate values stay integers), range/math/time/label functions, topk/bottomk/stddev/stdvar/quantile/group, histogram_quantile, vector arithmetic and label matching between vectors: NOT covered by proof. Selector/matcher evaluation, single-stage sum/min/max/avg/count with by/without/no grouping, open-vs-rotated and block/segment splits are covered only by the end-to-end differential e2e_metrics (sampled inputs, no theorem): real engine in a fresh process per case (OTSDB ingest, 0..2 block and segment rotations, ConvertPromQLToMetricsQuery + ExecuteMetricsQuery, every query answered again after one more forced rotation) against the Lean SPECIFICATION Spec/Metrics.lean (absent label = \"\", anchored regex, group = label subset, aggregate per group and timestamp as exact rationals; sum/avg on non-integers and queries whose points are not on bucket starts only with declared latitude). Nested aggregations, functions, binary operators, instant queries and the HTTP layer are not exercised end to end. Recorded deviations: known_findings.txt sig=e2em/in-class/*; float64 rounding: not modelled",
         assumptions=["label values are non-empty (PromQL treats an empty value as an absent label; the remote-write path stores what it is given) — the property check does not judge inputs with empty values",
                      "one series per label set within a query for count() without grouping fields (TSIDs are hashes of the full label set); duplicate ids are exercised for model correspondence only"],
